@@ -669,12 +669,13 @@ def _analyze_simple_command(
         return Decision("allow", base)
 
     # 4. Version/help checks (a handler that launches an inner command decides
-    #    first: `sh -c 'cmd' -h` runs cmd, it is not a help query)
+    #    first: `sh -c 'cmd' -h` runs cmd, it is not a help query; nor is a
+    #    command whose handler found a file it writes: `sort -o f -h`)
     handler = get_handler(base)
     result = handler.classify(HandlerContext(tokens, cwd=cwd)) if handler else None
     if (
         _is_version_or_help(tokens)
-        and not (result and result.action == "delegate")
+        and not (result and (result.action == "delegate" or result.redirect_targets))
         and not getattr(handler, "HANDLES_HELP", False)
     ):
         return Decision("allow", f"{base} --help")
